@@ -381,11 +381,11 @@ def expected : List (String × List Entry) := [
     ⟨"lencheck:len(baseURL.Path) == 0", .total "test (model: DidWeb.requestPath)"⟩,
     ⟨"guardcall:resolver.RejectNullKeyEntries", .total "guard of document.UnmarshalJSON (Cfg.nullGuard); without it: site Resolve>did.Document.UnmarshalJSON (go-did dereferences null key entries)"⟩]),
   ("vcr/credential/util.go:ResolveSubjectDID", [
-    ⟨"range:credentials", .sampled "credential.vp / credential.vc"⟩,
-    ⟨"deref:*sid", .sampled "credential.vp / credential.vc"⟩,
-    ⟨"deref:*sid", .sampled "credential.vp / credential.vc"⟩]),
+    ⟨"range:credentials", .total "bounded loop (model: Cred.resolveLoop)"⟩,
+    ⟨"deref:*sid", .site "ResolveSubjectDID:*sid"⟩,
+    ⟨"deref:*sid", .site "ResolveSubjectDID:*sid"⟩]),
   ("vcr/credential/util.go:PresenterIsCredentialSubject", [
-    ⟨"deref:*signerDID", .sampled "credential.vp / credential.vc"⟩]),
+    ⟨"deref:*signerDID", .total "after err == nil of PresentationSigner, which returns a non-nil DID on every ok path (model: Cred.presentationSigner)"⟩]),
   ("vcr/credential/util.go:PresentationIssuanceDate", []),
   ("vcr/credential/util.go:PresentationExpirationDate", [
     ⟨"nilcheck:ldProof.Expires == nil", .sampled "credential.vp / credential.vc"⟩,
@@ -412,8 +412,8 @@ def expected : List (String × List Entry) := [
     ⟨"branch:continue outer", .sampled "credential.vp / credential.vc"⟩]),
   ("vcr/credential/resolver.go:PresentationSigner", []),
   ("vcr/credential/resolver.go:ParseLDProof", [
-    ⟨"lencheck:len(proofs) != 1", .sampled "credential.vp"⟩,
-    ⟨"index:proofs[0]", .sampled "credential.vp"⟩]),
+    ⟨"lencheck:len(proofs) != 1", .total "guard of proofs[0] (Cfg.proofCountExact)"⟩,
+    ⟨"index:proofs[0]", .site "ParseLDProof:proofs[0]"⟩]),
   ("vcr/credential/validator.go:validateNutsCredentialID", [
     ⟨"nilcheck:credential.ID == nil", .sampled "credential.vc"⟩]),
   ("vcr/verifier/verifier.go:verifier.Verify", [
@@ -434,12 +434,12 @@ def expected : List (String × List Entry) := [
     ⟨"range:presentation.VerifiableCredential", .sampled "verifier.Verify / verifier.VerifyVP"⟩,
     ⟨"nilcheck:presentation.Holder != nil", .sampled "verifier.Verify / verifier.VerifyVP"⟩]),
   ("crypto/jwx.go:JWTKidAlg", [
-    ⟨"lencheck:len(j.Signatures()) != 1", .sampled "crypto.ParseJWT"⟩,
-    ⟨"index:j.Signatures()[0]", .sampled "crypto.ParseJWT"⟩]),
+    ⟨"lencheck:len(j.Signatures()) != 1", .total "guard of j.Signatures()[0] (Jwx.Cfg.kidAlgSigGuard)"⟩,
+    ⟨"index:j.Signatures()[0]", .site "JWTKidAlg:j.Signatures()[0]"⟩]),
   ("crypto/jwx.go:ParseJWT", []),
   ("crypto/jwx.go:ParseJWS", [
-    ⟨"lencheck:len(signatures) != 1", .sampled "crypto.ParseJWT"⟩,
-    ⟨"index:signatures[0]", .sampled "crypto.ParseJWT"⟩]),
+    ⟨"lencheck:len(signatures) != 1", .total "guard of signatures[0] (Jwx.Cfg.jwsSigGuard)"⟩,
+    ⟨"index:signatures[0]", .site "ParseJWS:signatures[0]"⟩]),
   ("jsonld/ldutils.go:LDUtil.Canonicalize", [
     ⟨"defer:recoverProcessorPanic", .sampled "verifier.VerifyVP"⟩,
     ⟨"discard:json.Marshal(input)", .sampled "verifier.VerifyVP"⟩]),
